@@ -12,7 +12,8 @@ SHARD = 63
 RULE = ('in-memory 1-D files: 1..30 records, 1..5 dependent variables, doubles of magnitude 1e-300..1e300 (mostly 1e-30..1e30), '
         'negative, zero, integers; int and float missing codes (7-digit and longer); masked cells with fill = code or not; 0..8 header '
         'attributes in random order with values containing colons, leading blanks, empty strings, newlines (adversarial), LLOD/ULOD '
-        'flags with or without values; names with slash, units with comma/blank/absent; short and long outputs (< / >= 28 lines); '
+        'flags with or without values; unmasked values near each variable\'s missing code (code*(1 +- k e-6), code +- small offsets, tiny values for code 0, '
+        'time stamps near the first dependent code) that print differently from the code; names with slash, units with comma/blank/absent; short and long outputs (< / >= 28 lines); '
         'malformed stream: no dependent variable, no SDATE, independent variable absent, non-time independent values, names with '
         'comma/blank. Every case: text compared line by line with the model writer, reader result, getreader() class, second cycle. '
         'Non-trivial = at least one masked cell or one value whose %.6e rendering differs from the input.')
@@ -68,9 +69,11 @@ def gen(rng, n, tier):
     for i in range(n):
         r = rng.random()
         if tier == 'search':
-            kind = rng.choice(['valid-long'] * 6 + ['valid-long-attrs', 'valid-long-attrs', 'lod-both', 'valid-indep', 'valid-short'])
-        elif r < 0.40:
+            kind = rng.choice(['valid-long'] * 4 + ['near-code'] * 4 + ['valid-long-attrs', 'valid-long-attrs', 'lod-both', 'valid-indep', 'valid-short'])
+        elif r < 0.28:
             kind = 'valid-long'
+        elif r < 0.40:
+            kind = 'near-code'
         elif r < 0.50:
             kind = 'valid-long-attrs'
         elif r < 0.56:
@@ -157,8 +160,34 @@ def gen(rng, n, tier):
             mask = [rng.random() < pm for _ in range(nrec)]
             vs.append(dict(name=nm, units=units, code=code, fill=code, cells=cells, mask=mask))
         # independent variable consistent with what the text can carry (region 0) unless stated otherwise
-        if kind != 'valid-indep' and (kind.startswith('valid-long') or rng.random() < 0.8):
+        if kind != 'valid-indep' and (kind.startswith('valid-long') or kind == 'near-code' or rng.random() < 0.8):
             vs[0]['code'] = vs[0]['fill'] = firstcode
+        if kind == 'near-code':
+            # unmasked values NEAR the code the reader compares with (own code; first dependent code for the
+            # independent variable) that still print differently under %.6e: in the domain, mask must not change
+            if rng.random() < 0.3:
+                z = rng.choice([0, 0.0])
+                vs[1]['code'] = vs[1]['fill'] = z
+                vs[0]['code'] = vs[0]['fill'] = z
+                firstcode = z
+            for j, v in enumerate(vs):
+                c = float(firstcode if j == 0 else v['code'])
+                if c == 0:
+                    v['cells'] = [1.0 + q if x == 0 else x for q, x in enumerate(v['cells'])]
+                for _ in range(rng.randint(1, 3)):
+                    q = rng.randrange(nrec)
+                    for attempt in range(8):
+                        sg = rng.choice([1, -1])
+                        if c == 0:
+                            x = sg * rng.choice([1e-9, 1e-8, 5e-9, 1e-12, 1e-7, 3e-6, 1e-320])
+                        elif rng.random() < 0.5:
+                            x = c * (1 + sg * rng.randint(1, 20) * 1e-6)
+                        else:
+                            x = c + sg * rng.choice([0.01, 0.05, 0.1, 0.5, 1.0, 5.0, 10.0]) * rng.choice([1, 1, abs(c) / 9999.0])
+                        if float('%.6e' % x) != c and x != c and (j > 0 or abs(x) <= 1e9):
+                            v['cells'][q] = x
+                            v['mask'][q] = False
+                            break
         if kind == 'token':
             w = rng.choice(['slash', 'unit-comma', 'unit-pad', 'unit-none'])
             j = rng.randint(0, ndep)
@@ -453,6 +482,12 @@ def py_check(case, obs):
     ind = dict(case['attrs']).get('INDEPENDENT_VARIABLE')
     vs = case['vars']
     order = [v for v in vs if v['name'] == ind] + [v for v in vs if v['name'] != ind]
+    for a_ in order:
+        rc = _code_obj((order[1] if a_ is order[0] and len(order) > 1 else a_)['code'])
+        rc = -999 if rc is None else rc
+        if any(x is not None and float.fromhex(x) == float(rc) for x in a_['cells']):
+            # an unmasked value equal to the code the text carries for it IS a missing value: outside the domain (in_quant)
+            return dict(s_ok=True, why='unmasked value equals the missing code: outside the domain')
     if obs['wrote'] is None:
         return dict(s_ok=False, why='writer raised ' + str(obs.get('write_exc')))
     lines = obs['wrote']['lines']
@@ -471,10 +506,6 @@ def py_check(case, obs):
             why.append('names/order %r != %r' % ([v['name'] for v in rv], [v['name'] for v in order]))
         else:
             for a, b in zip(order, rv):
-                rc = _code_obj((order[1] if a is order[0] and len(order) > 1 else a)['code'])
-                rc = -999 if rc is None else rc
-                if any(x is not None and float.fromhex(x) == float(rc) for x in a['cells']):
-                    continue        # an unmasked value equal to the code the text carries for it IS a missing value: outside the domain
                 if a['units'] != b['units']:
                     why.append('units of %s: %r -> %r' % (a['name'], a['units'], b['units']))
                 co = _code_obj(a['code'])
@@ -550,7 +581,9 @@ LEVEL_TEXT = ('Theorems (Props/C19.v, all closed under the global context) over 
               'C19_names_line, C19_user_line, C19_codes_line, C19_codes_count); %.6e is a canonical 7-digit decimal within half a unit of the 7th '
               'digit, idempotent (C19_values_seven_digits, C19_values_canonical, C19_print_idempotent); auto-detection selects ffi1001 unless a line '
               'carries the eight L100 column names (C19_autodetect, C19_few_tokens_not_claimed); _partial: per-cell mask/value round trip and second '
-              'cycle for codes that are 7-digit decimals (C19_cell_roundtrip_partial, C19_second_cycle_cell_partial); the whole-file composition is '
+              'cycle for codes that are 7-digit decimals (C19_cell_roundtrip_partial, C19_second_cycle_cell_partial); WHOLE FILES: the header state machine for '
+              'any number of description / comment lines (C19_header_state_machine) and reader-on-writer-output up to the first data row with names, order, '
+              'units, codes (C19_read_write_meta_partial, C19_line9_units, C19_count_lines_one_line); the data stage for whole files is still '
               'UNPROVED (comment), evaluated by vm_compute (C19_domain_inhabited, C19_repaired_cases) and compared with the library on every case; '
               '_refuted = remaining known findings: C19_indep_code_refuted, C19_mask_long_code_refuted, C19_value_collision_refuted, '
               'C19_name_slash_refuted, C19_unit_comma_refuted. Tie H: text line by line, reader result, getreader class, second cycle.')
